@@ -198,10 +198,11 @@ func oracleSocks5(sp *Spec, r *Result, ex expectation, f *fails) {
 
 	// ---- client -> server bytes (the repository's client only; the raw client is ours)
 	cs := r.CS
+	var trailing func() // deferred: bytes after the request are judged only if the server's replies are right
 	if sp.Client != "raw" {
 		off := 0
 		bad := func(format string, a ...any) {
-			f.add("wire-client-to-server", sp.Target.class()+","+authShape(sp), "client bytes %s: "+format, append([]any{show(cs)}, a...)...)
+			f.add("wire-client-to-server", sp.Target.class(), "client bytes %s: "+format, append([]any{show(cs)}, a...)...)
 		}
 		clientMethod := byte(0)
 		if sp.ClientAuth {
@@ -256,9 +257,14 @@ func oracleSocks5(sp *Spec, r *Result, ex expectation, f *fails) {
 			}
 			// Abort with the success code is outside the statement: the reply may say "succeeded" and the client may go on
 			if len(cs)-off != wantData && !(sp.Outcome == "abort" && sp.Code == 0) {
-				bad("%d bytes follow the request, expected %d bytes of payload", len(cs)-off, wantData)
+				trailing = func() {
+					bad("%d bytes follow the request, expected %d bytes of payload", len(cs)-off, wantData)
+				}
 			}
 		}()
+	}
+	if len(*f) > 0 {
+		return
 	}
 
 	// ---- server -> client bytes
@@ -341,7 +347,7 @@ func oracleSocks5(sp *Spec, r *Result, ex expectation, f *fails) {
 			if !socksReplyOK(sp.Code, byte(rep)) {
 				f.add("reply-class", "dial="+dialClass(sp.Code), "dial result %d (%s) reported with REP=%d (%s)", sp.Code, dialName(sp.Code), rep, socks5.ReplyError(byte(rep)))
 			}
-			if sp.Code != 0 && rep == 0 {
+			if sp.Code != 0 && rep == 0 && socksReplyOK(sp.Code, 0) {
 				f.add("reply-class", "failure-reported-as-success", "dial result %d (%s) reported with REP=0 (succeeded)", sp.Code, dialName(sp.Code))
 			}
 		}
@@ -353,6 +359,14 @@ func oracleSocks5(sp *Spec, r *Result, ex expectation, f *fails) {
 			badS("reply", "%d bytes follow the reply, expected %d bytes of far-side data", len(sc)-off, wantData)
 		}
 	}()
+
+	if len(*f) > 0 {
+		return
+	}
+	if trailing != nil {
+		trailing()
+		return
+	}
 
 	// ---- what the client reports
 	shape := authShape(sp) + "," + outcomeShape(sp)
@@ -419,9 +433,10 @@ func oracleHTTP(sp *Spec, r *Result, ex expectation, f *fails) {
 
 	// ---- client -> server
 	cs := r.CS
+	var trailing func()
 	func() {
 		bad := func(format string, a ...any) {
-			f.add("wire-client-to-server", sp.Target.class()+","+authShape(sp), "client bytes %s: "+format, append([]any{show(cs)}, a...)...)
+			f.add("wire-client-to-server", sp.Target.class(), "client bytes %s: "+format, append([]any{show(cs)}, a...)...)
 		}
 		h, err := parseHTTPHead(cs)
 		if err != nil {
@@ -463,9 +478,14 @@ func oracleHTTP(sp *Spec, r *Result, ex expectation, f *fails) {
 			wantData = sp.Payload + sp.D1
 		}
 		if len(cs)-h.length != wantData {
-			bad("%d bytes follow the request head, expected %d", len(cs)-h.length, wantData)
+			trailing = func() {
+				bad("%d bytes follow the request head, expected %d", len(cs)-h.length, wantData)
+			}
 		}
 	}()
+	if len(*f) > 0 {
+		return
+	}
 
 	// ---- server -> client
 	sc := r.SC
@@ -511,7 +531,7 @@ func oracleHTTP(sp *Spec, r *Result, ex expectation, f *fails) {
 			if !httpStatusOK(sp.Code, status) {
 				f.add("reply-class", "dial="+dialClass(sp.Code), "dial result %d (%s) reported with status %d", sp.Code, dialName(sp.Code), status)
 			}
-			if sp.Code != 0 && status >= 200 && status <= 299 {
+			if sp.Code != 0 && status >= 200 && status <= 299 && httpStatusOK(sp.Code, status) {
 				f.add("reply-class", "failure-reported-as-success", "dial result %d (%s) reported with status %d", sp.Code, dialName(sp.Code), status)
 			}
 		}
@@ -519,6 +539,14 @@ func oracleHTTP(sp *Spec, r *Result, ex expectation, f *fails) {
 			bad("%d bytes follow the response head, expected %d bytes of far-side data", len(sc)-h.length, wantData)
 		}
 	}()
+
+	if len(*f) > 0 {
+		return
+	}
+	if trailing != nil {
+		trailing()
+		return
+	}
 
 	// ---- client report
 	if status >= 0 {
